@@ -70,6 +70,8 @@ def run(prog, chk):
     output_file(prog, chk)
     same_file(prog, chk)
     checked_paths_are_used(prog, chk)
+    cli_config_mapping(prog, chk)
+    output_replaced_unconditionally(prog, chk)
     server_stack(prog, chk)
     from props import C06
     C06.hash_iteration(prog, chk)  # the same bytes from every front-end presupposes that no unordered iteration reaches the output
@@ -473,6 +475,69 @@ def checked_paths_are_used(prog, chk):
                 flds.append(str(o[1][1][-1]) if o[0] == "field" and o[1][1] else "?")
             chk.ob(flds == [".input_path", ".output_path"], "A13.same-file", f"{body.short}:transform_file:args", body.where(bb, t.get("line")), "transform_file is called with the Config's input_path and output_path", f"transform_file is called with {flds} instead of the Config's (input_path, output_path): the written file is not the one the same-file refusal examined")
     chk.floor("A13.same-file:args", n, 2, "transform_file call in the command")
+
+
+CLI_FIELD_OK = {
+    "add_auto_styles": ("no_auto_styles", "Not", "the option is spelled negatively: --no-auto-styles"),
+}
+
+
+def cli_config_mapping(prog, chk):
+    """the command passes every option through to the TransformConfig field of the same name, unchanged: the same input
+    and configuration then give the same bytes as the library called with that configuration"""
+    if "cli" not in prog.features:
+        return
+    from sa import hirq
+
+    fa = prog.body("svgdx::cli::Config::from_args")
+    chk.touch(fa)
+    h = prog.hir.get(fa.id)
+    n = 0
+    for st in hirq.struct_exprs(h, "svgdx::TransformConfig"):
+        for f in st["fields"]:
+            n += 1
+            v = f["v"]
+            name = f["name"]
+            neg = False
+            while isinstance(v, dict) and v.get("k") in ("Unary",) and v.get("op") == "Not":
+                neg = not neg
+                v = v["x"]
+            pure = isinstance(v, dict) and v.get("k") == "Field" and isinstance(v.get("x"), dict) and v["x"].get("k") == "Path" and "local" in (v["x"].get("res") or {})
+            src = v.get("name") if pure else None
+            if name in CLI_FIELD_OK:
+                want_src, want_op, why = CLI_FIELD_OK[name]
+                chk.ob(pure and src == want_src and neg == (want_op == "Not"), "A15.cli-mapping", f"from_args:{name}", fa.where(line=f.get("line") or st.get("line")), f"reviewed: TransformConfig::{name} = !args.{want_src} ({why})", f"TransformConfig::{name} is no longer initialised as !args.{want_src}", by="table")
+            else:
+                chk.ob(pure and src == name and not neg, "A15.cli-mapping", f"from_args:{name}", fa.where(line=f.get("line") or st.get("line")), f"TransformConfig::{name} = args.{name}", f"the command initialises TransformConfig::{name} from an expression other than args.{name} ({'args.' + src if src else 'a computed value'}{' negated' if neg else ''}): the command then runs with a configuration the user did not give, and its output differs from the library's for the same input and configuration")
+    chk.floor("A15.cli-mapping", n, 15, "TransformConfig field initialised by the command")
+
+
+def output_replaced_unconditionally(prog, chk):
+    """a successful transform to a file leaves exactly its result in that file: in transform_file the copy of the
+    temporary result over the output is reached on every path that follows a successful transform_stream into it"""
+    tf = prog.body("svgdx::transform_file")
+    chk.touch(tf)
+    copies = tf.call_sites(lambda c: c.path in ("std::fs::copy", "std::fs::rename") or c.path.endswith("NamedTempFile::<F>::persist") or c.path.endswith("::persist"))
+    chk.floor("A13.output-replaced", len(copies), 1, "copy of the temporary result over the output file")
+    if not copies:
+        return
+    cb = copies[0][0]
+    ts = [(bb, t) for (bb, t, c) in tf.call_sites(R.path_is("svgdx::transform_stream")) if cb in tf.reach([t["t"]])]
+    if not ts:
+        chk.anchor_missing("A13.output-replaced", "transform_file: no transform_stream call leads to the copy")
+        return
+    bb, t = ts[-1]
+    # from the success edge of `transform_stream(..)?` a return that is not an error return must pass the copy
+    brk = R.try_break_edges(tf, t["dest"][0]) if hasattr(R, "try_break_edges") else []
+    rets = [x for x in tf.reachable if tf.term(x)["k"] == "ret"]
+    avoid = {cb} | {y for (_x, y) in brk}
+    # other `?` on the way (metadata(), exists() ...) may leave with an error as well
+    for (b2, t2, c2) in tf.call_sites(lambda c: c.decl_path == "std::ops::Try::branch"):
+        for (_x, y) in R.try_break_edges(tf, op_place(t2["args"][0])[0]) if op_place(t2["args"][0]) else []:
+            avoid.add(y)
+    skip = [x for x in rets if x in tf.reach([t["t"]], avoid=avoid)]
+    # error blocks reached through `?` are excluded above; what remains are successful returns that skipped the copy
+    chk.ob(not skip, "A13.output-replaced", "transform_file", tf.where(cb, copies[0][1].get("line")), "after a successful transform the result always replaces the output file", "transform_file can return successfully without copying the result over the output file: the file keeps the bytes of an earlier transform while stdout / the library give the new (e.g. empty) result")
 
 
 def server_stack(prog, chk):
